@@ -42,7 +42,7 @@ body = '''## 11. Sensitivity: which checks catch which seeded changes
 Method. Fresh sub-agents were given **only** the text of one property and a scratch git worktree
 of /repo (nothing from /verif) and asked for changes that break the property while compiling and
 passing the existing suite, each with a demonstration that fails with the change and passes
-without it, preferring changes that need something specific to manifest. Seven rounds of six
+without it, preferring changes that need something specific to manifest. Eight rounds of six
 agents (seven in the fifth, where C18 had one agent for the archive side and one for the asset
 parsers); from the second round on they were told which ideas had been used before, and that the
 `verif_sim` seam of /repo may be used by a demonstration (that is how short and interrupted I/O,
@@ -52,7 +52,9 @@ with it, demo passes without it; the two baseline-flaky `patch::tests` were re-r
 before keeping it as `/verif/seeded/<id>/` (patch.diff, demo.rs, notes.md, meta.json). Each was
 then run against the *quick* check of its property with `tools/try_mutant.sh` (apply to /repo,
 `./check <P> quick`, restore /repo); `tools/run_seeded.sh` repeats all of them and writes
-`seeded/RESULTS.txt`, from which this table is generated: **%d of %d caught by the quick check**.
+`seeded/RESULTS.txt` (`tools/run_seeded_copy.sh` does the same on a copy of /repo and of the
+simulator, so that other work can go on), from which this table is generated: **%d of %d caught by
+the quick check**.
 
 | id | needs, in order to manifest | quick check | first signature reported |
 |---|---|---|---|
